@@ -11,6 +11,11 @@ Open Scope string_scope.
 
 Definition modeled_copy_api : list (string * string * string * bool * bool) :=
   [
+   (* LISTED, NOT YET DRIVEN by harness/w_c19.py (it has no BinaryPolynomial / DQM handles): HCopy (CRelabel f) / HEdit (IRelabel f);
+      to_binary / to_spin(copy=False) return the receiver itself when it already has that vartype (documented) *)
+   ("BinaryPolynomial", "relabel_variables", "inplace", true, true);
+   ("BinaryPolynomial", "to_binary", "copy", false, true);
+   ("BinaryPolynomial", "to_spin", "copy", false, true);
    (* inplace=False: HCopy (CSpinToBinary/CBinaryToSpin vs) ; inplace=True: HEdit (ISpinToBinary/IBinaryToSpin vs) *)
    ("BinaryQuadraticModel", "change_vartype", "inplace", true, true);
    (* HCopy (CRelabel f) ; HEdit (IRelabel f) *)
@@ -26,6 +31,9 @@ Definition modeled_copy_api : list (string * string * string * bool * bool) :=
    ("ConstrainedQuadraticModel", "relabel_variables", "inplace", true, true);
    (* NOTE the default: spin_to_binary is non-mutating unless asked *)
    ("ConstrainedQuadraticModel", "spin_to_binary", "inplace", false, true);
+   (* LISTED, NOT YET DRIVEN (no DQM handles in w_c19) *)
+   ("DiscreteQuadraticModel", "relabel_variables", "inplace", true, true);
+   ("DiscreteQuadraticModel", "relabel_variables_as_integers", "inplace", true, false);
    ("QuadraticModel", "relabel_variables", "inplace", true, true);
    ("QuadraticModel", "relabel_variables_as_integers", "inplace", true, false);
    ("QuadraticModel", "spin_to_binary", "inplace", false, true);
@@ -39,3 +47,75 @@ Definition modeled_copy_api : list (string * string * string * bool * bool) :=
 (* HCopy (CSet (OAppendVec ..)), (OAppendVars ..), HCopy (CConcat js), (ODrop ..), (OKeep ..) *)
 Definition modeled_sampleset_functions : list string :=
   ["append_data_vectors"; "append_variables"; "concatenate"; "drop_variables"; "keep_variables"].
+
+(* every public copy / relabel_* / to_* / from_* method of the classes above and whether its body
+   contains `return self`.  Driven by w_c19: copy (CCopy), relabel_variables* (CRelabel / IRelabel),
+   QuadraticModel.from_bqm and BinaryQuadraticModel(bqm) (CCopy), SampleSet.copy / from_samples /
+   relabel_variables (CSet ...), pickling (= from_numpy_vectors of to_numpy_vectors for a BQM,
+   from_serializable-free for SampleSet).  The file / serialisation / numpy / networkx converters are
+   the subject of C09-C12 and are listed here only so that a NEW constructor breaks the tie. *)
+Definition modeled_copy_constructors : list (string * string * bool) :=
+  [
+   ("BinaryPolynomial", "copy", false);
+   ("BinaryPolynomial", "from_hising", false);
+   ("BinaryPolynomial", "from_hubo", false);
+   ("BinaryPolynomial", "relabel_variables", true);
+   ("BinaryPolynomial", "to_binary", true);
+   ("BinaryPolynomial", "to_hising", false);
+   ("BinaryPolynomial", "to_hubo", false);
+   ("BinaryPolynomial", "to_spin", true);
+   ("BinaryQuadraticModel", "copy", false);
+   ("BinaryQuadraticModel", "from_coo", false);
+   ("BinaryQuadraticModel", "from_file", false);
+   ("BinaryQuadraticModel", "from_ising", false);
+   ("BinaryQuadraticModel", "from_networkx_graph", false);
+   ("BinaryQuadraticModel", "from_numpy_matrix", false);
+   ("BinaryQuadraticModel", "from_numpy_vectors", false);
+   ("BinaryQuadraticModel", "from_qubo", false);
+   ("BinaryQuadraticModel", "from_serializable", false);
+   ("BinaryQuadraticModel", "relabel_variables", true);
+   ("BinaryQuadraticModel", "relabel_variables_as_integers", false);
+   ("BinaryQuadraticModel", "to_coo", false);
+   ("BinaryQuadraticModel", "to_file", false);
+   ("BinaryQuadraticModel", "to_ising", false);
+   ("BinaryQuadraticModel", "to_networkx_graph", false);
+   ("BinaryQuadraticModel", "to_numpy_matrix", false);
+   ("BinaryQuadraticModel", "to_numpy_vectors", false);
+   ("BinaryQuadraticModel", "to_qubo", false);
+   ("BinaryQuadraticModel", "to_serializable", false);
+   ("ConstrainedQuadraticModel", "from_bqm", false);
+   ("ConstrainedQuadraticModel", "from_dqm", false);
+   ("ConstrainedQuadraticModel", "from_file", false);
+   ("ConstrainedQuadraticModel", "from_lp_file", false);
+   ("ConstrainedQuadraticModel", "from_qm", false);
+   ("ConstrainedQuadraticModel", "from_quadratic_model", false);
+   ("ConstrainedQuadraticModel", "relabel_variables", true);
+   ("ConstrainedQuadraticModel", "to_file", false);
+   ("DiscreteQuadraticModel", "copy", false);
+   ("DiscreteQuadraticModel", "from_file", false);
+   ("DiscreteQuadraticModel", "from_numpy_vectors", false);
+   ("DiscreteQuadraticModel", "relabel_variables", true);
+   ("DiscreteQuadraticModel", "relabel_variables_as_integers", false);
+   ("DiscreteQuadraticModel", "to_file", false);
+   ("DiscreteQuadraticModel", "to_numpy_vectors", false);
+   ("QuadraticModel", "copy", false);
+   ("QuadraticModel", "from_bqm", false);
+   ("QuadraticModel", "from_file", false);
+   ("QuadraticModel", "relabel_variables", true);
+   ("QuadraticModel", "relabel_variables_as_integers", false);
+   ("QuadraticModel", "to_file", false);
+   ("SampleSet", "copy", false);
+   ("SampleSet", "from_future", false);
+   ("SampleSet", "from_samples", false);
+   ("SampleSet", "from_samples_bqm", false);
+   ("SampleSet", "from_samples_cqm", false);
+   ("SampleSet", "from_serializable", false);
+   ("SampleSet", "relabel_variables", true);
+   ("SampleSet", "to_pandas_dataframe", false);
+   ("SampleSet", "to_serializable", false);
+   ("Variables", "to_serializable", false);
+   ("VartypeView", "relabel_variables", false);
+   ("VartypeView", "relabel_variables_as_integers", false);
+   ("VartypeView", "to_numpy_vectors", false)
+  ].
+
